@@ -226,7 +226,7 @@ var checkC20 = def("C20/engines", func(c histEngineCase) error {
 })
 
 func TestC20_engines(t *testing.T) {
-	runRapid(t, "C20/engines", 20000, func(t *rapid.T) histEngineCase {
+	runRapid(t, "C20/engines", 60000, func(t *rapid.T) histEngineCase {
 		var gc gen.GameCase
 		switch rapid.IntRange(0, 4).Draw(t, "src") {
 		case 0:
@@ -363,7 +363,7 @@ func TestC20_books(t *testing.T) {
 			g.Pop()
 		}
 	}
-	runRapid(t, "C20/books", 8000, func(t *rapid.T) bookCase {
+	runRapid(t, "C20/books", 24000, func(t *rapid.T) bookCase {
 		var c bookCase
 		n := rapid.IntRange(1, 5).Draw(t, "lines")
 		pol := gen.Policy{1, 2, 1, 0, 1, 1, 0, 0, 4, 4}
